@@ -250,14 +250,22 @@ func (i *interpreter) checkAssert(id string, c value, knownID string, region val
 	// continue under the assumption that the assertion holds
 	if ct.isConst {
 		if ct.cv == 0 {
+			ps.failsAll = id
 			i.abort(abortStop, "assertion %s fails on every input of this path", id)
 		}
 		return
 	}
-	i.addPC(ct)
-	if i.solver.checkSat() != "sat" {
+	s := i.solver
+	s.define(ct)
+	s.push()
+	s.send("(assert " + ct.ref() + ")")
+	r := s.checkSat()
+	s.pop()
+	if r != "sat" {
+		ps.failsAll = id
 		i.abort(abortStop, "assertion %s fails on every input of this path", id)
 	}
+	i.addPC(ct)
 }
 
 func verifAssert(fr *frame, args []value) value {
